@@ -75,10 +75,15 @@ class GenWorld:
         install_sympy_models(I, None)
 
         def m_diff(I2, a, kw):
+            # D-diff (weakened after D12/D14): sympy's diff(e, x) is the partial derivative of the real function e only when it
+            # comes back in closed form (no unevaluated Derivative)
+            from pvc.sympy_model import jac_f, jacobian_axioms
+
             e, x = a
             if not (isinstance(e, ExprV) and isinstance(x, SymV)):
                 raise Unsupported("diff arguments")
-            return ExprV(diff_f(e.z, x.z))
+            jacobian_axioms(I2.path)
+            return ExprV(jac_f(e.z, x.z))
 
         I.models.froms[("sympy", "diff")] = Builtin("sympy.diff", m_diff)
 
@@ -231,7 +236,11 @@ def jacobian_statement(P, pre, rows, cols, cell, want_expr, rng_note=""):
     rng = z3.And(r >= 0, r < rows, c >= 0, c < cols)
     okt = len(parts) == 5 and parts[0] == "jacobian(" and parts[2] == ", " and parts[4] == ")"
     P.oblige(f"{pre}.target_is_the_cell_of_its_row_and_column", z3.Implies(rng, z3.And(to_int(parts[1]) == r, to_int(parts[3]) == c)) if okt else z3.BoolVal(False), note=f"target text parts {parts[0::2] if okt else parts}")
-    P.oblige(f"{pre}.expression_is_the_partial_derivative_of_its_row_wrt_its_column", z3.Implies(rng, ex.base.z == want_expr(r, c)) if isinstance(ex.base, ExprV) else z3.BoolVal(False))
+    P.oblige(f"{pre}.expression_is_the_partial_derivative_of_its_row_wrt_its_column", z3.Implies(rng, ex.base.z == want_expr(r, c)) if isinstance(ex.base, ExprV) else z3.BoolVal(False), theory="euf")
+    # requires of BasicBlock.compile (premise of D-cse / D-simp / D-ccode): no unevaluated Derivative among the statements
+    from pvc.sympy_model import closed_f
+
+    P.oblige(f"{pre}.statements_in_closed_form", z3.Implies(rng, closed_f(ex.base.z)) if isinstance(ex.base, ExprV) else z3.BoolVal(False), theory="euf")
     return ex
 
 
@@ -256,6 +265,8 @@ class TranslateJacobian(Contract):
         from pvc.interp import Flat2Seq
 
         P, pre, W = I.path, self.prefix, call.W
+        if outcome[0] == "raise" and outcome[1] == "ModelConstructionError" and P.ghost.get("no_closed_form"):
+            return  # _partial_derivative's contract: a derivative sympy cannot give in closed form is refused, never generated
         if outcome[0] == "raise":
             P.oblige(f"{pre}.no_exception", z3.BoolVal(False), note=f"raises {outcome[1]}")
             return
@@ -292,6 +303,8 @@ class TranslateSensorJacobian(Contract):
         from pvc.interp import Flat2Seq
 
         P, pre, W, mp = I.path, self.prefix, call.W, call.mp
+        if outcome[0] == "raise" and outcome[1] == "ModelConstructionError" and P.ghost.get("no_closed_form"):
+            return
         if outcome[0] == "raise":
             P.oblige(f"{pre}.no_exception", z3.BoolVal(False), note=f"raises {outcome[1]}")
             return
@@ -427,6 +440,57 @@ class TranslateControlCovariance(Contract):
         if covered:
             g0, r0, c0 = covered[0]
             P.oblige(f"{pre}.every_cell_is_assigned", z3.Implies(rng, z3.And(g0, r0 == i, c0 == j)))
+
+
+class RealPartial(Contract):
+    """cpp._partial_derivative(model, symbol)
+    requires model an expression, symbol a symbol, both existing before the call (D-dummy).
+    ensures  raises nothing but ModelConstructionError; on return the result is diff(model, symbol) - the SPEC derivative of the
+             real function - and is in closed form.  (Same body as python._jacobian on a 1x1 matrix; same renaming theory.)"""
+
+    key = "formak.cpp:_partial_derivative"
+    prefix = "C02.cxxgen._partial_derivative"
+
+    def setup(self, I):
+        from pvc.sympy_model import dummy_axioms, dummy_free_f, is_dummy
+
+        P = I.path
+        P.ghost["site"] = self.prefix
+        install_sympy_models(I, None)
+        e, x = z3.Const("model_expr", Expr), z3.Const("wrt_symbol", Sym)
+        dummy_axioms(P)
+        P.facts.append(dummy_free_f(e))
+        P.facts.append(z3.Not(is_dummy(x)))
+        return Call([ExprV(e), SymV(x)], {}, e=e, x=x)
+
+    def post(self, I, call, outcome):
+        from pvc.sympy_model import closed_f
+
+        P, pre = I.path, self.prefix
+        if outcome[0] == "raise":
+            P.oblige(f"{pre}.only_modelconstructionerror", z3.BoolVal(outcome[1] == "ModelConstructionError"), note=f"raises {outcome[1]}")
+            return
+        res = outcome[1]
+        ok = isinstance(res, ExprV)
+        P.oblige(f"{pre}.returns_expression", z3.BoolVal(ok))
+        if ok:
+            P.oblige(f"{pre}.result_in_closed_form", closed_f(res.z), theory="euf")
+            P.oblige(f"{pre}.result_is_the_real_partial_derivative", res.z == diff_f(call.e, call.x), theory="euf")
+
+    def apply(self, I, args, kwargs):
+        from pvc.sympy_model import closed_f
+
+        e, x = args[0], args[1]
+        if not (isinstance(e, ExprV) and isinstance(x, SymV)):
+            raise Unsupported("_partial_derivative arguments")
+        d = diff_f(e.z, x.z)
+        I.path.ghost.setdefault("no_closed_form", []).append(z3.Not(closed_f(d)))
+        I.raise_if(z3.Not(closed_f(d)), "ModelConstructionError")
+        return ExprV(d)
+
+
+def callees():
+    return {RealPartial.key: RealPartial()}
 
 
 def contracts():
